@@ -288,9 +288,12 @@ def gtransfit_k(chk, drv, e, df, covs, g, wcol, case):
     # call site of the outcome GLM: fitted on the sampled rows (outcomes observed there), frequency-weighted iff a
     # weight column is given -- the generated call site (rows, weight column or none) against the fitted model object
     smp = df['S'].values == 1
+    # statsmodels' formula interface drops the rows it is handed that lack a model variable (missing='drop'): sampled
+    # rows with an unrecorded exposure (round-4 data family) are handed over and not fitted
+    used = smp & df[covs + ['A', 'Y']].notna().all(axis=1).values
     fwm = np.asarray(e._outcome_model.model.freq_weights, dtype=float)
-    want_fw = df.loc[smp, wcol].values.astype(float) if wcol is not None else np.ones(int(smp.sum()))
-    chk.k(rep['status'] == 'ok' and int(rep.get('nfit', -1)) == int(smp.sum()) == int(e._outcome_model.nobs)
+    want_fw = df.loc[used, wcol].values.astype(float) if wcol is not None else np.ones(int(used.sum()))
+    chk.k(rep['status'] == 'ok' and int(rep.get('nfit', -1)) == int(smp.sum()) and int(used.sum()) == int(e._outcome_model.nobs)
           and (rep.get('fw') == '1') == (wcol is not None) and fwm.shape == want_fw.shape
           and bool(np.array_equal(fwm, want_fw)),
           'GTransportFormula.outcome_model: GLM fitted on the sampled rows with the frequency weights read from its source',
